@@ -9,11 +9,11 @@
 (* logged views (get on every position, to_triplets, to_dense, col_index) must each    *)
 (* describe `cur`.  A "products" event (C07) must report the exact dense products of    *)
 (* `cur` for A x, A^T y, transpose() times y, the adjoint identity and scaled products. *)
-(* In a C07 history constructors and inserts are not judged (they are C06's subject):  *)
-(* they carry the state -- the model continues from the logged content when it is      *)
-(* well-formed -- so that C07 demands exactly "sparse product = dense product of the    *)
-(* same matrix".  scale and transpose ARE C07 operations: the model advances by the     *)
-(* abstract operator and the next products event (same object) is judged against it.   *)
+(* In a C07 history the construction / modification steps get no verdict of their own  *)
+(* (fields and views are C06's subject); the reference matrix advances by the abstract  *)
+(* operator and every products probe (same object) is judged against it: the sparse     *)
+(* products must equal the dense products of the reference built from the same          *)
+(* operations.                                                                          *)
 (* <y, A x> and <A^T y, x> are computed by the crate's Vector::dot and each compared    *)
 (* with its exact value; dx / dty are the crate's dense route to_dense() * x.           *)
 (* A constructor event starts a new history; every other event continues from `cur`.   *)
@@ -21,6 +21,7 @@ EXTENDS TraceBase, SparseCSC
 VARIABLES l, cur
 vars == <<l, cur>>
 
+Documented(e) == e.what \in {"insert", "get", "multiply", "transpose_multiply", "from_triplets"}   \* panics stated in src/sparse.rs
 IsCtor(e) == e.op \in {"from_triplets", "from_vecs"}
 IsStateOp(e) == IsCtor(e) \/ IsMutator(e)
 ArgVecs(e) == FromVecs(e.arg.rows, e.arg.cols, e.arg.val, e.arg.ri, e.arg.cs)
@@ -95,14 +96,20 @@ Step == /\ l <= NRec
                      IN IF why = "" THEN cur' = cur ELSE Mismatch(l, e, why) /\ cur' = cur
               ELSE IF e.op = "gap"                                        \* unlogged small calls: must all complete
                 THEN IF ~e.panic /\ e.done = e.n THEN cur' = cur ELSE Mismatch(l, e, "gap-small-call-panicked") /\ cur' = cur
+              ELSE IF e.op = "refuse"
+                \* a call that must be refused (ran under a panic guard): the model does not move, the SAME object is
+                \* projected / viewed afterwards and must still be the unchanged matrix; the call itself is judged only
+                \* as "did not return a value" where the code documents a panic
+                THEN LET why == IF Documented(e) /\ e.returned THEN "refused-call-returned"
+                                ELSE IF e.prop = "C07" THEN "" ELSE JudgeState(e, cur)
+                     IN IF why = "" THEN cur' = cur ELSE Mismatch(l, e, "after-refused-" \o e.what \o ":" \o why) /\ cur' = cur
               ELSE IF ~IsStateOp(e)
                 THEN Mismatch(l, e, "unknown-op") /\ cur' = cur
               ELSE IF ~InDomain(e, cur)
                 THEN cur' = Resync(e, cur)                                  \* nothing demanded
               ELSE LET X == Expected(e, cur)
                    IN IF e.prop = "C07"
-                        THEN cur' = IF e.op \in {"scale", "transpose"} THEN X      \* C07 operations: judged by the next products
-                                    ELSE Resync(e, X)                         \* constructors / insert: state-carrying only
+                        THEN cur' = X      \* not judged here: the reference advances and the next products probe is judged against it
                         ELSE LET why == JudgeState(e, X)
                              IN IF why = "" THEN cur' = X
                                 ELSE Mismatch(l, e, why) /\ cur' = Resync(e, X)
